@@ -5,6 +5,7 @@ the caller's next query (same pose array, same search direction, same point) sil
 import ast
 
 from ..core.astutil import u, call_name
+from ..core.index import AnalysisError
 
 FRESH = ("np.copy", "np.array", "np.zeros", "np.empty", "np.ones", "np.zeros_like", "np.empty_like", "np.dot", "np.cross", "np.atleast_2d")
 
@@ -82,3 +83,134 @@ def r_pureargs(idx, rep, modules, rule="R-PUREARGS", floor=10):
                         "loop, a query point) is different after the call, so later queries and repeated calls see other data" % (u(st)[:80], p))
             else:
                 rep.ok(rule, key, f.where, "no in-place operation on a parameter")
+
+
+# ---------------------------------------------------------------------------------------------------------------------------------
+# R-UNTOUCHED: a query leaves the colliders it is given as they were.
+
+NOCOPY = ("np.asarray", "np.asanyarray", "np.ascontiguousarray", "np.asfortranarray", "np.atleast_1d", "np.atleast_2d", "np.atleast_3d", "np.ravel", "np.reshape",
+          "np.squeeze", "np.transpose", "np.require")
+
+
+def _aliased(v, ps):
+    """(text of the caller-owned attribute that the value may share memory with, certainly an array?) or None"""
+    if isinstance(v, ast.Attribute) and v.attr in ("T", "real", "flat"):
+        r = _aliased(v.value, ps)
+        return (r[0], True) if r else None
+    if isinstance(v, ast.Attribute) and isinstance(v.value, ast.Name) and v.value.id in ps:
+        return (u(v), False)
+    if isinstance(v, ast.Subscript):
+        inner = _aliased(v.value, ps)
+        # basic slicing gives a view; an integer index of a 1-D array gives a scalar (rebinding only)
+        if inner is not None and any(isinstance(x, ast.Slice) for x in ([v.slice] + (list(v.slice.elts) if isinstance(v.slice, ast.Tuple) else []))):
+            return (inner[0], True)
+        return None
+    if isinstance(v, ast.Call):
+        cn = call_name(v) or ""
+        if cn in NOCOPY and v.args:
+            r = _aliased(v.args[0], ps)
+            return (r[0], True) if r else None
+        if isinstance(v.func, ast.Attribute) and v.func.attr in ("reshape", "ravel", "view", "squeeze", "transpose", "swapaxes"):
+            r = _aliased(v.func.value, ps)
+            return (r[0], True) if r else None
+    return None
+
+
+def collider_attrs(idx):
+    """attribute names that make up the state of a collider (assigned through self in a class of distance3d.colliders)"""
+    out = set()
+    m = idx.modules.get("distance3d.colliders")
+    if m is None:
+        return out
+    for ci in m.classes.values():
+        for mi in ci.methods.values():
+            for n in ast.walk(mi.node):
+                if isinstance(n, ast.Attribute) and isinstance(n.value, ast.Name) and n.value.id == "self" and isinstance(n.ctx, ast.Store):
+                    out.add(n.attr)
+    return out
+
+
+def collider_readers(idx, modules):
+    """{key: FuncInfo} of the functions that read collider state from a parameter (the instances of R-UNTOUCHED)"""
+    attrs = collider_attrs(idx)
+    out = {}
+    for mname in modules:
+        m = idx.modules.get(mname)
+        for f in (m.functions.values() if m else ()):
+            ps = set(f.params()) - {"self"}
+            if "<locals>" not in f.qualname and ps and any(isinstance(n, ast.Attribute) and isinstance(n.value, ast.Name) and n.value.id in ps and n.attr in attrs
+                                                           for n in ast.walk(f.node)):
+                out[f.key] = f
+    return out
+
+
+def r_untouched(idx, rep, modules, rule="R-UNTOUCHED", floor=20):
+    rep.rule(rule, "no function modifies, in place, the state of a collider it receives as an argument (size, radius, vertices, pose ...): neither "
+                   "directly (arg.attr[...] = / arg.attr op=) nor through a name that may share its memory (x = arg.attr, np.asarray(arg.attr) — "
+                   "no copy when the dtype already matches —, slices, .T, reshape): a query must leave the collider equal to a freshly built one",
+             floor=floor)
+    attrs = collider_attrs(idx)
+    if len(attrs) < 5:
+        raise AnalysisError("distance3d.colliders: collider state attributes not found")
+    for mname in modules:
+        m = idx.modules.get(mname)
+        if m is None:
+            continue
+        for f in m.functions.values():
+            if "<locals>" in f.qualname:
+                continue
+            ps = set(f.params()) - {"self"}
+            if not ps:
+                continue
+            reads = [n for n in ast.walk(f.node) if isinstance(n, ast.Attribute) and isinstance(n.value, ast.Name) and n.value.id in ps and n.attr in attrs]
+            if not reads:
+                continue
+            assigns = {}
+            for st in ast.walk(f.node):
+                if isinstance(st, ast.Assign) and len(st.targets) == 1 and isinstance(st.targets[0], ast.Name):
+                    assigns.setdefault(st.targets[0].id, []).append((st.lineno, _aliased(st.value, ps)))
+                elif isinstance(st, ast.For) and isinstance(st.target, ast.Name):
+                    assigns.setdefault(st.target.id, []).append((st.lineno, None))
+
+            def alias_at(name, lineno):
+                prior = [(ln, al) for ln, al in assigns.get(name, []) if ln <= lineno]
+                return max(prior, key=lambda x: x[0])[1] if prior else None
+            hits = []
+            for st in ast.walk(f.node):
+                tg = []
+                if isinstance(st, ast.AugAssign):
+                    tg = [st.target]
+                elif isinstance(st, ast.Assign):
+                    for t in st.targets:
+                        tg.extend(t.elts if isinstance(t, ast.Tuple) else [t])
+                    tg = [t for t in tg if isinstance(t, ast.Subscript)]
+                for t in tg:
+                    b, sub = t, False
+                    while isinstance(b, ast.Subscript):
+                        b, sub = b.value, True
+                    if isinstance(b, ast.Name) and b.id not in ps:
+                        al = alias_at(b.id, st.lineno)
+                        if al is not None and al[0].split(".")[-1] in attrs and (sub or al[1] or _arrayish(f, b.id)):
+                            hits.append((st, al[0], b.id))
+                    elif isinstance(b, ast.Attribute) and isinstance(b.value, ast.Name) and b.value.id in ps and b.attr in attrs and (sub or isinstance(st, ast.AugAssign)):
+                        hits.append((st, u(b), None))
+                if isinstance(st, ast.Call):
+                    for k in st.keywords:
+                        if k.arg == "out" and isinstance(k.value, ast.Name) and k.value.id not in ps:
+                            al = alias_at(k.value.id, st.lineno)
+                            if al is not None and al[0].split(".")[-1] in attrs:
+                                hits.append((st, al[0], k.value.id))
+                    if isinstance(st.func, ast.Attribute) and st.func.attr in ("fill", "sort", "resize", "itemset", "partition") and isinstance(st.func.value, ast.Name) \
+                            and st.func.value.id not in ps:
+                        al = alias_at(st.func.value.id, st.lineno)
+                        if al is not None and al[0].split(".")[-1] in attrs:
+                            hits.append((st, al[0], st.func.value.id))
+            key = "%s|leaves the colliders it is given untouched" % f.key
+            if hits:
+                st, obj, via = hits[0]
+                rep.bad(rule, key, "%s:%d" % (m.relpath, st.lineno),
+                        "`%s` changes `%s` in place%s: every query now alters the collider itself (its AABB, its support points and — after the next update_pose — "
+                        "its vertices drift away from those of a freshly constructed collider at the same pose)"
+                        % (u(st)[:70], obj, (" through `%s`, which may be the very same array (np.asarray / a view does not copy)" % via) if via else ""))
+            else:
+                rep.ok(rule, key, f.where, "reads %s, writes none of them" % sorted({"%s.%s" % (n.value.id, n.attr) for n in reads})[:4])
